@@ -30,6 +30,9 @@ CONSTANTS Procs, MaxOps,
           LevelKind,     \* "atomic" = code; "plain" = spec mutant
           GlobalsS,      \* "inside" = code; "outside" = spec mutant (_globalS written after the unlock)
           BwsSync,       \* "locked" = code; "bare" = spec mutant
+          LockedSyncErr, \* "release" = code (the lock is released whatever the wrapped Sync returns); "leak" = spec mutant
+          StackFree,     \* "once" = code (the pooled stack is put back exactly once on every path); "twice" = spec mutant
+          ColourMemo,    \* "readonly" = code (the package-level level->string maps are only read); "memo" = spec mutant
           Emit
 
 E(k, x) == <<k, x>>
@@ -50,21 +53,37 @@ Script(op) ==
     [] op = "locked.write" -> <<E("acq", "wmu"), E("w", "sink"), E("rel", "wmu")>>
     [] op = "logger.log" -> <<E("at", "pool"), E("acq", "wmu"), E("w", "sink"), E("rel", "wmu"), E("at", "pool")>>
     [] op = "logger.with" -> <<E("at", "pool")>>
+    \* Sync through a locked sink whose wrapped Sync fails
+    [] op = "locked.sync" -> IF LockedSyncErr = "release" THEN <<E("acq", "wmu"), E("w", "sink"), E("rel", "wmu")>>
+                             ELSE <<E("acq", "wmu"), E("w", "sink")>>
+    \* caller / stack-trace annotation: a pooled stacktrace.Stack is taken, filled, read and put back
+    [] op = "logger.caller" -> <<E("get", "stk"), E("wobj", "stk"), E("robj", "stk"), E("put", "stk")>>
+    \* the same with a caller skip beyond the stack: nothing captured, complaint on the error output
+    [] op = "logger.nocaller" -> IF StackFree = "once" THEN <<E("get", "stk"), E("wobj", "stk"), E("put", "stk")>>
+                                 ELSE <<E("get", "stk"), E("wobj", "stk"), E("put", "stk"), E("put", "stk")>>
+    \* a colouring level encoder looks the level up in a package-level map
+    [] op = "logger.colour" -> IF ColourMemo = "readonly" THEN <<E("r", "colourmap")>> ELSE <<E("r", "colourmap"), E("w", "colourmap")>>
     [] op = "bws.write" -> <<E("acq", "bmu"), E("r", "binit"), E("w", "binit"), E("w", "bbuf"), E("rel", "bmu")>>
     [] op = "bws.sync" -> IF BwsSync = "locked" THEN <<E("acq", "bmu"), E("w", "bbuf"), E("rel", "bmu")>> ELSE <<E("w", "bbuf")>>
     [] op = "bws.stop" -> <<E("acq", "bmu"), E("r", "bstopped"), E("w", "bstopped"), E("rel", "bmu"), E("acq", "bmu"), E("w", "bbuf"), E("rel", "bmu")>>
 Ops == {"lazy.use", "lazy.enabled", "level.set", "level.get", "globals.replace", "globals.L", "globals.S", "observer.add", "observer.read",
-        "sampler.check", "locked.write", "logger.log", "logger.with", "bws.write", "bws.sync", "bws.stop"}
-PlainLocs == {"lzcore", "lzflag", "lvl", "gL", "gS", "ologs", "sink", "binit", "bbuf", "bstopped"}
+        "sampler.check", "locked.write", "logger.log", "logger.with", "bws.write", "bws.sync", "bws.stop",
+        "locked.sync", "logger.caller", "logger.nocaller", "logger.colour"}
+\* pooled objects: an object is owned exclusively between Get and Put; sync.Pool orders a Put before the Get that
+\* returns the same object. A pool never blocks: when nothing is free a fresh object is made.
+Objs == {"stk1", "stk2", "stk3", "stk4"}
+PlainLocs == {"lzcore", "lzflag", "lvl", "gL", "gS", "ologs", "sink", "binit", "bbuf", "bstopped", "colourmap"} \cup Objs
 Locks == {"gmu", "omu", "wmu", "bmu", "lz"}
-Atoms == {"lvl", "resetAt", "counter", "pool"}
+Atoms == {"lvl", "resetAt", "counter", "pool", "stk"}
 
 VARIABLES prog,    \* [Procs -> sequence of ops]: chosen at the start
           opi, pc, \* per process: index of the current op, index of the next event in it
           vc,      \* vector clocks
           lockVC, holder, atomVC, onceDone,
-          lastW, lastR, race
-vars == <<prog, opi, pc, vc, lockVC, holder, atomVC, onceDone, lastW, lastR, race>>
+          lastW, lastR, race,
+          freeObjs, held, fresh   \* the pool's free list (a sequence: the same object may be in it twice after a double Put), the object each process holds, objects handed out so far
+vars == <<prog, opi, pc, vc, lockVC, holder, atomVC, onceDone, lastW, lastR, race, freeObjs, held, fresh>>
+ObjSeq == <<"stk1", "stk2", "stk3", "stk4">>
 
 Zero == [q \in Procs |-> 0]
 Join(a, b) == [q \in Procs |-> IF a[q] > b[q] THEN a[q] ELSE b[q]]
@@ -75,6 +94,7 @@ Init == /\ prog \in [Procs -> Programs]
         /\ lockVC = [m \in Locks |-> Zero] /\ holder = [m \in Locks |-> 0] /\ atomVC = [a \in Atoms |-> Zero]
         /\ onceDone = FALSE
         /\ lastW = [x \in PlainLocs |-> Zero] /\ lastR = [x \in PlainLocs |-> Zero] /\ race = ""
+        /\ freeObjs = <<>> /\ held = [p \in Procs |-> ""] /\ fresh = 0
 
 Cur(p) == Script(prog[p][opi[p]])
 Finished(p) == opi[p] > Len(prog[p])
@@ -89,8 +109,12 @@ HB(epoch, p) == \A q \in Procs : epoch[q] <= vc[p][q]
 
 Step(p) ==
   /\ ~Finished(p) /\ Len(Cur(p)) > 0
-  /\ LET e == Cur(p)[pc[p]] k == e[1] x == e[2] IN
-     CASE k = "r" ->
+  /\ LET e0 == Cur(p)[pc[p]]
+         \* accesses to "the object I hold" are accesses to that object's memory
+         e == IF e0[1] = "wobj" THEN <<"w", held[p]>> ELSE IF e0[1] = "robj" THEN <<"r", held[p]>> ELSE e0
+         k == e[1] x == e[2] IN
+     /\ IF k \in {"get", "put"} THEN TRUE ELSE UNCHANGED <<freeObjs, held, fresh>>
+     /\ CASE k = "r" ->
             /\ race' = IF race = "" /\ ~HB(lastW[x], p) THEN "read of " \o x \o " races with a write" ELSE race
             /\ lastR' = [lastR EXCEPT ![x] = [@ EXCEPT ![p] = vc[p][p]]]
             /\ vc' = [vc EXCEPT ![p] = Tick(@, p)] /\ Advance(p, 1)
@@ -125,6 +149,19 @@ Step(p) ==
             /\ onceDone' = TRUE /\ holder' = [holder EXCEPT ![x] = 0] /\ lockVC' = [lockVC EXCEPT ![x] = vc[p]]
             /\ vc' = [vc EXCEPT ![p] = Tick(@, p)] /\ Advance(p, 1)
             /\ UNCHANGED <<atomVC, lastW, lastR, race>>
+       [] k = "get" ->
+            /\ IF freeObjs # <<>>
+               THEN /\ held' = [held EXCEPT ![p] = Head(freeObjs)] /\ freeObjs' = Tail(freeObjs) /\ UNCHANGED fresh
+                    /\ vc' = [vc EXCEPT ![p] = Tick(Join(@, atomVC[x]), p)]
+               ELSE /\ fresh < Len(ObjSeq) /\ fresh' = fresh + 1 /\ held' = [held EXCEPT ![p] = ObjSeq[fresh + 1]]
+                    /\ UNCHANGED freeObjs /\ vc' = [vc EXCEPT ![p] = Tick(@, p)]
+            /\ Advance(p, 1)
+            /\ UNCHANGED <<lockVC, holder, atomVC, onceDone, lastW, lastR, race>>
+       [] k = "put" ->
+            /\ freeObjs' = Append(freeObjs, held[p]) /\ UNCHANGED <<held, fresh>>
+            /\ atomVC' = [atomVC EXCEPT ![x] = Join(@, vc[p])]
+            /\ vc' = [vc EXCEPT ![p] = Tick(@, p)] /\ Advance(p, 1)
+            /\ UNCHANGED <<lockVC, holder, onceDone, lastW, lastR, race>>
   /\ UNCHANGED prog
 Next == \E p \in Procs : Step(p)
 Spec == Init /\ [][Next]_vars /\ WF_vars(Next)
